@@ -7,7 +7,7 @@
 Require Import Field Ring Arith Lia List Bool String.
 From TK Require Import Mat_Sums Mat_Core Mat_EigSelect EigSelect Mat_EigSelect_Tie
                        Proj_Model Proj_Spec Proj_Proof Pca_Model Pca_Spec Pca_Proof
-                       Spectral_KyFan Pca_Proof_Opt.
+                       Spectral_KyFan Pca_Proof_Opt Spectral_Randomized.
 
 Section PcaSelect.
   Context {F : Type} {Fo : FieldOps F} {Ff : IsField F} {Fle : OrderedField F}.
@@ -46,3 +46,34 @@ Section PcaSelect.
       apply (ky_fan_attained D d (D - d) (cov_spec N X) V Lam); try assumption. lia.
   Qed.
 End PcaSelect.
+
+(* ---------------- the randomized path on exact-rank data ---------------- *)
+Section PcaRandomized.
+  Context {F : Type} {Fo : FieldOps F} {Ff : IsField F}.
+  Local Open Scope nat_scope.
+
+  (* PCA uses LargestEigenvalues (skip = 0): the random test matrix O has d columns and
+     rightCols(d) keeps all of them.  A = what the randomized front-end sees = cov_spec
+     (Pca_Proof.cov_seen_randomized).  s = the norm (sqrt) oracle answers of the Gram-Schmidt loop. *)
+  Theorem pca_randomized_path N D d (X O B W : mat F) (lam : vec F) (s : nat -> F) :
+    of_nat N <> fzero ->
+    let A := cov_spec N X in
+    let Y := gram_schmidt D (mmul D A O) d s in
+    (forall i, i < d ->
+       s i <> fzero /\
+       fmul (s i) (s i) = (let Yi := gram_schmidt D (mmul D A O) i s in
+                           let col := gs_subtract D Yi i i (fun t => Yi t i) in dot D col col)) ->
+    meq D D (mmul d Y (mmul D (mtrans Y) A)) A ->
+    meq d d B (mmul D (mtrans Y) (mmul D A Y)) ->
+    eig_pairs d d B W lam ->
+    let P := mmul d Y W in
+    eig_contract D d A P lam /\ uncorrelated N d (pca_embedding N D X P) lam.
+  Proof.
+    intros HN A Y Hs Hrange HB HW P.
+    assert (HY : orthonormal_cols D d Y)
+      by (apply cols_orthonormal_is_meq; apply gram_schmidt_orthonormal; exact Hs).
+    destruct (randomized_contract D d A Y B W lam HY Hrange HB HW) as [H1 H2].
+    assert (Hc : eig_contract D d A P lam) by (split; assumption).
+    split; [exact Hc|]. exact (pca_uncorrelated N D d X P lam HN Hc).
+  Qed.
+End PcaRandomized.
